@@ -1,78 +1,95 @@
 package c09
 
-// Native `go test -fuzz` tier (thorough only).  The driver only runs
-// `-test.run`, so each TestPropFuzz* wrapper re-executes the test binary with
-// `-test.fuzz=^Fuzz…$` from $VERIF_OUT (where testdata/fuzz can be written) and
-// converts a crasher into a violation whose replay unit is the saved corpus
-// entry.  Quick never runs native fuzzing (it cannot be pinned to a seed).
+// Native `go test -fuzz` targets (coverage-guided tier, THOROUGH only).
+//
+// Every C09 target is a function of one byte string (selector bytes choosing
+// state / configuration / the generated history, then the hostile packet), so
+// the same function serves as a fuzz target.  The driver (/verif/check) knows
+// the convention:
+//
+//	both tiers   the seed corpus of every Fuzz* function runs as a plain test
+//	             (`-test.run '^Fuzz'`): hostile constants, the repository's own
+//	             test packets, valid packets behind fixed and generated
+//	             histories, and 256 deterministic structure-aware rapid examples
+//	             per target — with the per-case statistics of checkOne;
+//	thorough     each Fuzz* function is fuzzed for the budget of
+//	             lib/props.d/C09.json `fuzz` in a fresh run directory; a crasher
+//	             (testdata/fuzz/FuzzXxx/<hash>) is re-run in isolation by the
+//	             driver and, confirmed, is the replay unit of the violation.
+//
+// Quick never fuzzes (the engine cannot be pinned to a seed).  In fuzzing mode
+// no per-case statistics are kept (millions of executions): violations only.
 
 import (
-	"context"
 	"encoding/hex"
+	"flag"
 	"fmt"
 	"os"
-	"os/exec"
 	"path/filepath"
-	"regexp"
-	"runtime"
 	"runtime/debug"
-	"strconv"
-	"strings"
-	"syscall"
 	"testing"
-	"time"
 
 	"pgregory.net/rapid"
 
 	"bngverif/internal/vstat"
 )
 
-const fuzzChildEnv = "VERIF_C09_FUZZCHILD"
+// fuzzing reports whether this process is a fuzz coordinator or worker (-test.fuzz given).
+func fuzzing() bool {
+	f := flag.Lookup("test.fuzz")
+	return f != nil && f.Value.String() != ""
+}
 
 func fuzzTarget(f *testing.F, name string) {
 	tg := targets[name]
 	if tg == nil {
 		f.Fatalf("harness: unknown target %q", name)
 	}
-	currentTest = "TestProp" + f.Name()
+	currentTest = f.Name()
 	for _, s := range fuzzSeeds(tg) {
 		f.Add(s)
 	}
-	child := os.Getenv(fuzzChildEnv) != ""
-	if child && inFuzzWorker() {
+	fz := fuzzing()
+	if fz && inFuzzWorker() {
 		// a fatal runtime error or a panic in a goroutine of the code under test kills the worker; the engine
-		// discards the worker's stderr, so duplicate the crash report into a file the wrapper can read
+		// discards the worker's stderr, so duplicate the crash report into a file next to the driver's log
 		if cf, err := os.Create(filepath.Join(outDir(), fmt.Sprintf("worker-crash-%d.txt", os.Getpid()))); err == nil {
 			_ = debug.SetCrashOutput(cf, debug.CrashOptions{})
 		}
 	}
 	f.Fuzz(func(t *testing.T, data []byte) {
-		if child {
-			// no per-case statistics in the fuzz workers (millions of executions); violations only
-			if len(data) > maxInput {
-				data = data[:maxInput]
+		currentTest, curT = f.Name(), t
+		if !fz {
+			// seed corpus / crasher file as a plain test; a crasher is re-run by the driver with what the worker
+			// executed for it (steering around listed findings included)
+			if os.Getenv("VERIF_FUZZ_CRASHER") != "" {
+				data = steerFuzz(tg, data)
 			}
-			data = clip(steerFuzz(tg, data))
-			r := invoke(tg, data)
-			if r.panicked {
-				if tg.cleanup != nil {
-					tg.cleanup()
-				}
-				if sig := r.sig(tg); !vstat.IsListed(sig) {
-					// the exact executed bytes (after steering) are the replay unit
-					writeCaseFile(filepath.Join(outDir(), "violations", currentTest+"__"+tg.name+".json"),
-						caseFile{Target: tg.name, Sig: sig, Hex: hex.EncodeToString(data), Note: fmt.Sprint(r.val)})
-				}
-				vstat.Fail(t, r.sig(tg), "target %s panicked: %v\ninput (%d bytes, selectors included): %s\nstack:\n%s", tg.name, r.val, len(data), hex.EncodeToString(data), r.stack)
-			}
+			checkOne(t, tg, data, "fuzz-corpus")
 			return
 		}
-		checkOne(t, tg, data, "fuzz-corpus")
+		if len(data) > maxInput {
+			data = data[:maxInput]
+		}
+		data = clip(steerFuzz(tg, data))
+		r := invoke(tg, data)
+		if r.panicked {
+			if tg.cleanup != nil {
+				tg.cleanup()
+			}
+			if sig := r.sig(tg); !vstat.IsListed(sig) {
+				// the exact executed bytes (after steering) next to the engine's own crasher file
+				writeCaseFile(filepath.Join(outDir(), "violations", currentTest+"__"+tg.name+".json"),
+					caseFile{Target: tg.name, Sig: sig, Hex: hex.EncodeToString(data), Note: fmt.Sprint(r.val)})
+			}
+			vstat.Fail(t, r.sig(tg), "target %s panicked: %v\ninput (%d bytes, selectors included): %s\nstack:\n%s", tg.name, r.val, len(data), hex.EncodeToString(data), r.stack)
+		}
 	})
 }
 
-// fuzzSeeds is the seed corpus in f.Add order: hostile constants and valid packets, then 256 deterministic
-// structure-aware rapid examples (valid, mutated and random cases).
+// fuzzSeeds is the seed corpus in f.Add order: hostile constants and valid packets (the repository's own test
+// packets among them), then 256 deterministic structure-aware rapid examples (valid, mutated and random cases
+// behind fixed and generated histories).
 func fuzzSeeds(tg *target) [][]byte {
 	o := append([][]byte(nil), tg.seeds()...)
 	g := rapid.Custom(tg.gen)
@@ -80,227 +97,6 @@ func fuzzSeeds(tg *target) [][]byte {
 		o = append(o, g.Example(i))
 	}
 	return o
-}
-
-var (
-	reSeedNo  = regexp.MustCompile(`failure while testing seed corpus entry: \S+/seed#(\d+)`)
-	reExecs   = regexp.MustCompile(`execs: (\d+)`)
-	reCrasher = regexp.MustCompile(`Failing input written to (\S+)`)
-	reViol    = regexp.MustCompile(`VIOLATION sig=\S+[^\n]*`)
-	reInput   = regexp.MustCompile(`selectors included\): ([0-9a-f]*)`)
-)
-
-// fuzzBinary returns the binary to fuzz with.  The driver's test binary has no
-// coverage instrumentation (plain `go test -c`), so the first wrapper to get
-// the lock builds an instrumented one (`go test -c -fuzz=Fuzz`, same tags, same
-// module file) next to it; the others wait for it.  If that build does not
-// finish within VERIF_C09_FUZZBUILD_TIMEOUT (default 300s; finished packages
-// stay in the go build cache) or fails, fuzzing runs uninstrumented: the engine
-// still mutates from the seeded corpus, only without coverage guidance.
-func fuzzBinary() (string, bool) {
-	bdir, root := os.Getenv("VERIF_BUILD"), os.Getenv("VERIF_ROOT")
-	// Measured on this repository: with every dependency instrumented the engine manages 5-500 execs/s per
-	// target (40 s ~ 10^2..10^4 executions), the plain binary 5k-60k execs/s (40 s ~ 10^5..10^6).  Coverage
-	// guidance is therefore opt-in; by default the engine mutates the (large) seeded corpus without it.
-	if bdir == "" || root == "" || os.Getenv("VERIF_C09_FUZZ_INSTRUMENT") == "" {
-		return os.Args[0], false
-	}
-	self, err := os.Stat(os.Args[0])
-	if err != nil {
-		return os.Args[0], false
-	}
-	lock, err := os.OpenFile(filepath.Join(bdir, "c09-fuzz.lock"), os.O_CREATE|os.O_RDWR, 0o644)
-	if err != nil {
-		return os.Args[0], false
-	}
-	defer lock.Close()
-	if syscall.Flock(int(lock.Fd()), syscall.LOCK_EX) != nil {
-		return os.Args[0], false
-	}
-	defer syscall.Flock(int(lock.Fd()), syscall.LOCK_UN)
-	bin, failed := filepath.Join(bdir, "c09-fuzz.test"), filepath.Join(bdir, "c09-fuzz.failed")
-	if st, err := os.Stat(bin); err == nil && !st.ModTime().Before(self.ModTime()) {
-		return bin, true
-	}
-	if st, err := os.Stat(failed); err == nil && !st.ModTime().Before(self.ModTime()) {
-		return os.Args[0], false
-	}
-	budget := 300 * time.Second
-	if v, err := time.ParseDuration(os.Getenv("VERIF_C09_FUZZBUILD_TIMEOUT")); err == nil && v > 0 {
-		budget = v
-	}
-	args := []string{"test", "-c", "-tags", "verif", "-fuzz=Fuzz", "-o", bin + ".tmp"}
-	if alt := filepath.Join(bdir, "alt.mod"); os.Getenv("VERIF_REPO") != "" && os.Getenv("VERIF_REPO") != "/repo" {
-		if _, err := os.Stat(alt); err == nil {
-			args = append(args, "-modfile="+alt)
-		}
-	}
-	args = append(args, "./c09")
-	ctx, cancel := context.WithTimeout(context.Background(), budget)
-	defer cancel()
-	cmd := exec.CommandContext(ctx, filepath.Join(runtime.GOROOT(), "bin", "go"), args...)
-	cmd.Dir = filepath.Join(root, "harness")
-	if outb, err := cmd.CombinedOutput(); err != nil {
-		_ = os.WriteFile(failed, append([]byte(err.Error()+"\n"), outb...), 0o644)
-		return os.Args[0], false
-	}
-	if os.Rename(bin+".tmp", bin) != nil {
-		return os.Args[0], false
-	}
-	return bin, true
-}
-
-func nativeFuzz(t *testing.T, fuzzName, targetName string) {
-	if !vstat.Thorough() {
-		return // quick: native fuzzing is not run
-	}
-	currentTest = t.Name()
-	dur := os.Getenv("VERIF_C09_FUZZTIME")
-	if dur == "" {
-		dur = "40s"
-	}
-	d, err := time.ParseDuration(dur)
-	if err != nil {
-		t.Fatalf("INCONCLUSIVE: bad VERIF_C09_FUZZTIME: %v", err)
-	}
-	out := outDir()
-	env := []string{fuzzChildEnv + "=1"}
-	for _, e := range os.Environ() {
-		if !strings.HasPrefix(e, "VERIF_STATS=") {
-			env = append(env, e)
-		}
-	}
-	bin, instrumented := fuzzBinary()
-	vstat.Note("native-fuzz:coverage-instrumented", instrumented)
-	for attempt := 1; ; attempt++ {
-		verdict, msg := nativeFuzzOnce(t, bin, fuzzName, targetName, dur, d, out, env)
-		switch verdict {
-		case "ok":
-			return
-		case "violation":
-			t.Fatalf("%s", msg)
-		default:
-			if attempt == 1 {
-				// a worker death that neither reproduces nor left a crash report: run once more before giving up
-				vstat.Note("native-fuzz:"+targetName+":retried", msg[:min(len(msg), 300)])
-				continue
-			}
-			t.Fatalf("INCONCLUSIVE: %s", msg)
-		}
-	}
-}
-
-// nativeFuzzOnce returns ("ok"|"violation"|"inconclusive", message).
-func nativeFuzzOnce(t *testing.T, bin, fuzzName, targetName, dur string, d time.Duration, out string, env []string) (string, string) {
-	old, _ := filepath.Glob(filepath.Join(out, "worker-crash-*.txt"))
-	for _, f := range old {
-		_ = os.Remove(f)
-	}
-	_ = os.Remove(filepath.Join(out, "watchdog-"+targetName+".json"))
-	ctx, cancel := context.WithTimeout(context.Background(), d+4*time.Minute)
-	defer cancel()
-	cmd := exec.CommandContext(ctx, bin, "-test.run=^$", "-test.fuzz=^"+fuzzName+"$", "-test.fuzztime="+dur,
-		"-test.fuzzcachedir="+filepath.Join(out, "fuzzcache"), "-test.parallel=2", "-test.timeout=0")
-	cmd.Dir = out
-	cmd.Env = env
-	b, runErr := cmd.CombinedOutput()
-	text := string(b)
-	execs := 0
-	if m := reExecs.FindAllStringSubmatch(text, -1); len(m) > 0 {
-		execs, _ = strconv.Atoi(m[len(m)-1][1])
-	}
-	vstat.Class("native-fuzz-execs:"+targetName, int64(execs))
-	vstat.Note("native-fuzz:"+targetName, fmt.Sprintf("%s, %d execs", dur, execs))
-	if runErr == nil {
-		return "ok", ""
-	}
-	if !strings.Contains(text, "Failing input written") && !strings.Contains(text, "VIOLATION sig=") &&
-		!strings.Contains(text, "C09 watchdog") && strings.Contains(text, "context deadline exceeded") {
-		// the engine reports its own -fuzztime expiry as a failure when a worker is mid-exec (golang/go#48157 family)
-		vstat.Note("native-fuzz:"+targetName+":deadline-race", true)
-		return "ok", ""
-	}
-	tail := text
-	if len(tail) > 6000 {
-		tail = tail[len(tail)-6000:]
-	}
-	// crash reports of dead workers
-	crash := ""
-	cfs, _ := filepath.Glob(filepath.Join(out, "worker-crash-*.txt"))
-	for _, f := range cfs {
-		if cb, err := os.ReadFile(f); err == nil && len(cb) > 0 {
-			crash += string(cb)
-		}
-	}
-	if len(crash) > 8000 {
-		crash = crash[:8000]
-	}
-	crasher := ""
-	var crasherRaw []byte
-	if m := reCrasher.FindStringSubmatch(text); m != nil {
-		crasher = m[1]
-		if !filepath.IsAbs(crasher) {
-			crasher = filepath.Join(out, crasher)
-		}
-		crasherRaw, _ = os.ReadFile(crasher)
-	}
-	keep := func(dir string) string {
-		if exact := filepath.Join(out, "violations", t.Name()+"__"+targetName+".json"); fileExists(exact) && dir == "violations" {
-			return exact
-		}
-		if crasherRaw == nil {
-			return ""
-		}
-		p := filepath.Join(out, dir, t.Name()+"__"+filepath.Base(crasher)+".fuzz")
-		_ = os.MkdirAll(filepath.Dir(p), 0o755)
-		_ = os.WriteFile(p, crasherRaw, 0o644)
-		return p
-	}
-	if v := reViol.FindString(text); v != "" {
-		kept := keep("violations")
-		if kept == "" {
-			// failure on a seed corpus entry: the engine writes no file; keep the input from the message
-			if m := reInput.FindStringSubmatch(text); m != nil {
-				kept = filepath.Join(out, "violations", t.Name()+"__seed.json")
-				writeCaseFile(kept, caseFile{Target: targetName, Hex: m[1], Note: v})
-			}
-		}
-		return "violation", fmt.Sprintf("%s\nnative fuzz crasher kept as %s\n%s", v, kept, tail)
-	}
-	if strings.Contains(crash, "/pkg/") && strings.Contains(crash, os.Getenv("VERIF_REPO")) && os.Getenv("VERIF_REPO") != "" {
-		// the worker process died in the code under test (goroutine panic / fatal error): death of the process
-		kept := keep("violations")
-		return "violation", fmt.Sprintf("VIOLATION sig=C09/%s/process-death: fuzz worker died in the code under test; last input kept as %s\n%s\n%s", targetName, kept, crash, tail)
-	}
-	wf := filepath.Join(out, "watchdog-"+targetName+".json")
-	if !fileExists(wf) && crasherRaw == nil {
-		// died on a seed corpus entry: the engine names it by its f.Add index
-		if m := reSeedNo.FindStringSubmatch(text); m != nil {
-			if n, _ := strconv.Atoi(m[1]); n < len(fuzzSeeds(targets[targetName])) {
-				wf = filepath.Join(out, "unconfirmed", t.Name()+"__seed"+m[1]+".json")
-				writeCaseFile(wf, caseFile{Target: targetName, Hex: hex.EncodeToString(steerFuzz(targets[targetName], fuzzSeeds(targets[targetName])[n])), Note: "seed corpus entry " + m[1]})
-			}
-		}
-	}
-	if fileExists(wf) || (crasherRaw != nil && strings.Contains(text, "hung or terminated unexpectedly")) {
-		// a worker died (our watchdog, the engine's own 10 s "deadlocked!" timer, or otherwise): confirm the
-		// recorded input in isolation
-		kept := wf
-		if !fileExists(wf) {
-			kept = keep("unconfirmed")
-		}
-		ienv := append(append([]string{}, env...), isoEnv+"="+targetName+":"+kept, isoOriginEnv+"="+t.Name())
-		ictx, icancel := context.WithTimeout(context.Background(), 3*time.Minute)
-		defer icancel()
-		ic := exec.CommandContext(ictx, os.Args[0], "-test.run", "^TestReplayIsolated$", "-test.timeout", "150s")
-		ic.Dir, ic.Env = out, ienv
-		ib, _ := ic.CombinedOutput()
-		if v := reViol.FindString(string(ib)); v != "" {
-			return "violation", fmt.Sprintf("%s\n%s", v, string(ib)) // the isolated run wrote the violation file
-		}
-		return "inconclusive", fmt.Sprintf("native fuzz worker of %s died and the recorded input (%s) did not reproduce in isolation\nworker crash report: %q\n%s\n%s", fuzzName, kept, crash, string(ib), tail)
-	}
-	return "inconclusive", fmt.Sprintf("native fuzz run of %s failed without a violation: %v\nworker crash report: %q\n%s", fuzzName, runErr, crash, tail)
 }
 
 func fileExists(p string) bool {
